@@ -572,6 +572,8 @@ class Translator:
         self.static_asserts = []
         self.ninstr = 0
         self.elided = 0   # loads/stores whose address is a link-time constant (alloca site, global): not observed
+        self.copy_helpers = {}
+        self.cur_defs = {}
 
     # ---- layout -------------------------------------------------------
     def resolve(self, t):
@@ -1126,6 +1128,7 @@ class Translator:
                     continue
                 vtypes[dest] = self.result_type(toks, text, vtypes)
                 defs[dest] = (toks, text)
+        self.cur_defs = defs
 
         def lowbits(c, depth=0):
             """C expression (uint64_t) of the low 4 bits of integer value c if c is built from
@@ -1610,6 +1613,73 @@ class Translator:
                 if depth == 0:
                     return
 
+    # ---- typed block copy ---------------------------------------------
+    def pointee_hint(self, c, defs):
+        """IR type T if pointer constant/local c is (a bitcast of) a T* ; else None"""
+        if c is None:
+            return None
+        if c[0] == 'local' and c[1] in defs:
+            toks, text = defs[c[1]]
+            if toks[0][1] == 'bitcast':
+                t2 = TS(toks[1:], text)
+                fty = self.resolve(parse_type(t2))
+                if fty[0] == 'ptr':
+                    return fty[1]
+        if c[0] == 'cexpr' and c[1] == 'cast' and c[2] == 'bitcast':
+            fty = self.resolve(c[3])
+            if fty[0] == 'ptr':
+                return fty[1]
+        return None
+
+    def leaves(self, t, base=0):
+        """[(offset, ('scalar', ctype, size) | ('bytes', n))] of IR type t"""
+        t0 = t
+        t = self.resolve(t)
+        if t[0] in ('int', 'ptr'):
+            return [(base, ('scalar', self.val_ctype(t), self.sizeof(t)))]
+        if t[0] == 'arr':
+            et = self.resolve(t[2])
+            es = self.sizeof(et)
+            if et[0] == 'int':
+                return [(base, ('array', self.val_ctype(et), es, t[1]))]
+            out = []
+            for i in range(t[1]):
+                out += self.leaves(t[2], base + i * es)
+            return out
+        if t[0] == 'struct':
+            offs, _ = self.struct_layout(t)
+            out = []
+            for e, o in zip(t[1], offs):
+                out += self.leaves(e, base + o)
+            return out
+        raise Unsupported("typed copy of %r" % (t[0],))
+
+    def has_pointer_leaf(self, t):
+        try:
+            return any(l[1][0] == 'scalar' and '*' in l[1][1] or (l[1][0] == 'scalar' and l[1][1].startswith(self.px + 'fp')) for l in self.leaves(t))
+        except Unsupported:
+            return False
+
+    def copy_helper(self, t):
+        key = repr(self.resolve(t))
+        if key in self.copy_helpers:
+            return self.copy_helpers[key][0]
+        nm = "%scopy%d" % (self.px, len(self.copy_helpers))
+        body = []
+        covered = 0
+        for (o, l) in self.leaves(t):
+            if l[0] == 'scalar':
+                body.append("  IR_STORE(%s, d + %d, IR_LOAD(%s, s + %d));" % (l[1], o, l[1], o))
+            else:
+                if l[3] > 2048:
+                    raise Unsupported("typed copy of an array of %d elements" % l[3])
+                for i in range(l[3]):   # unrolled: no loop bound to configure
+                    body.append("  IR_STORE(%s, d + %d, IR_LOAD(%s, s + %d));" % (l[1], o + i * l[2], l[1], o + i * l[2]))
+        # padding bytes are not copied (unspecified values)
+        code = "static void %s(unsigned char *d, unsigned char *s)\n{\n%s\n}\n" % (nm, "\n".join(body))
+        self.copy_helpers[key] = (nm, code)
+        return nm
+
     # ---- calls --------------------------------------------------------
     def emit_call(self, fn, ts, d, dest, vtypes, env, text, calls):
         ind = "  "
@@ -1657,14 +1727,25 @@ class Translator:
                             depth += 1
                         elif x in ')]}':
                             depth -= 1
-                    args.append((aty, None))
+                    args.append((aty, None, None))
                 else:
                     c = parse_const(ts, aty)
-                    args.append((aty, self.const_expr(c, aty, env)))
+                    args.append((aty, self.const_expr(c, aty, env), c))
                 if ts.accept(')'):
                     break
                 ts.expect(',')
         out = []
+        if callee is not None and callee.startswith('llvm.memcpy.') and args[2][2][0] == 'int':
+            # block copy of a whole typed object that contains pointers: copy field by field with the
+            # field types of the IR pointee type (a byte loop would tear pointers apart, which CBMC
+            # cannot track); the observation is the same (dst, src, len)
+            n = args[2][2][1]
+            for k in (0, 1):
+                T = self.pointee_hint(args[k][2], self.cur_defs)
+                if T is not None and self.sizeof(T) == n and self.has_pointer_leaf(T):
+                    site = self.new_site(fn, 'memcpy', text)
+                    return ["  IR_COPY_TYPED(%d, %s, %s, %s, %d);" % (site, self.copy_helper(T), args[0][1], args[1][1], n)]
+        args = [(a[0], a[1]) for a in args]
         if callee is not None and callee.startswith('llvm.'):
             return self.emit_intrinsic(fn, callee, rty, args, d, text)
         if callee is not None and callee in LIBC_MEM:
@@ -1767,6 +1848,9 @@ class Translator:
         self.need_globals = set()
         self.work = []
         for e in entries:
+            if e in self.m.globals and not self.m.globals[e].external:
+                self.ref_global(e)     # a data root (e.g. a vtable the harness points to)
+                continue
             if e not in self.m.funcs or self.m.funcs[e].blocks is None:
                 raise Unsupported("entry point @%s not defined in the IR" % e)
             self.ref_global(e)
@@ -1825,8 +1909,10 @@ class Translator:
                 dfs(u, [])
         o = []
         o.append("/* generated by encoders/ir2c.py -- do not edit */")
-        o += self.struct_defs_sorted()
+        for nm in self.struct_names.values():
+            o.append("struct %s;" % nm)
         o += self.fp_defs
+        o += self.struct_defs_sorted()
         o += self.static_asserts
         for name in sorted(protos):
             o.append(protos[name] + ";")
@@ -1836,6 +1922,8 @@ class Translator:
         for name in sorted(gdefs):
             if gdefs[name] is not None:
                 o.append(gdefs[name])
+        for key in self.copy_helpers:
+            o.append(self.copy_helpers[key][1])
         for name in sorted(fbodies):
             o.append(fbodies[name])
         r = Result()
